@@ -18,6 +18,7 @@ import (
 func apiProtected(w *lib.Writer, tier string, seed uint64) {
 	loadReader(w)
 	handlerAtFullStack(w)
+	depthLeak(w)
 	type callee struct {
 		name string
 		mk   func(L *lua.LState) lua.LValue
@@ -227,5 +228,60 @@ RESULT = tostring(ok) .. " " .. runs .. " " .. tostring(type(e) == "string" and 
 	w.Meta.GoOnlyChecked++
 	if what != "" {
 		w.GoFail(id, "xpcall handler when the call stack is full: "+what)
+	}
+}
+
+// depthLeak: "afterwards the interpreter is as if the protected call had returned normally ... the
+// call depth and all later behaviour": whatever bookkeeping a failed protected call touches must be
+// back where it was. The depth to which pcall can be nested (bounded by the call stack and by the
+// C-call limit) is measured before and after several hundred failed protected calls of every kind;
+// a leak of one unit per call shows as a smaller depth (or as library callbacks failing).
+func depthLeak(w *lib.Writer) {
+	src := `
+local function depth() local d = 0; local function f() d = d + 1; return (pcall(f)) end; pcall(f); return d end
+local before = depth()
+for i = 1, 300 do
+  xpcall(function() error("x") end, function() error("y") end)
+  xpcall(function() local t = nil; return t.x end, function(m) return m end)
+  pcall(error, {})
+  pcall(function() return 1 + {} end)
+  pcall(string.gsub, "ab", "%w", function() error("in callback") end)
+  pcall(table.sort, {3, 2, 1}, function() error("in comparator") end)
+  local co = coroutine.wrap(function() error("in coroutine") end); pcall(co)
+  pcall(function() return setmetatable({}, {__index = function() error("in handler") end}).x end)
+end
+local after = depth()
+local cb = (string.gsub("ab", "%w", function(c) return c:upper() end))
+RESULT = tostring(before == after) .. " " .. cb .. " " .. tostring(before > 50)`
+	what := ""
+	func() {
+		defer func() {
+			if r := recover(); r != nil {
+				what = fmt.Sprintf("Go panic escaped: %v", r)
+			}
+		}()
+		for _, opt := range []lua.Options{{}, {CallStackSize: 1000, RegistrySize: 1 << 16}, {CallStackSize: 1000, RegistrySize: 1 << 16, MinimizeStackMemory: true}} {
+			L := lua.NewState(opt)
+			err := L.DoString(src)
+			got := ""
+			if err == nil {
+				got = L.GetGlobal("RESULT").String()
+			}
+			L.Close()
+			if err != nil {
+				what = fmt.Sprintf("under %+v: %v", opt, err)
+				return
+			}
+			if got != "true AB true" {
+				what = fmt.Sprintf("under %+v: same nesting depth before/after, callback result, depth>50 = %q, expected \"true AB true\"", opt, got)
+				return
+			}
+		}
+	}()
+	id := w.Add(lib.Case{Input: map[string]any{"api": "nesting-depth-after-failed-protected-calls", "src": src}, Observed: map[string]any{"failed": what != "", "what": what},
+		Class: "api-depth-leak", Nontrivial: true, Coq: "CProg [] (Outcome [] (OOk []))"})
+	w.Meta.GoOnlyChecked++
+	if what != "" {
+		w.GoFail(id, "nesting depth available after failed protected calls: "+what)
 	}
 }
